@@ -265,6 +265,33 @@ func c03One(r *Run, snap *slog.VerifRegistry, ops []WOp, asOptions bool, kind st
 			r.Fail("C03/level-not-told", fmt.Sprintf("blank line at the Always severity: destinations %v, told the level right before the write: %v, expected %v", bp.Dest, bp.Told, want), c)
 		}
 	}
+	// the package-level Reset (level and flags back to the factory settings) is no writer operation: a default logger
+	// that was given writers keeps them (every fourth case; direct oracle)
+	if len(ops)%4 == 1 {
+		def := slog.VerifEntryOf(slog.Default())
+		def.SetWriter(pool[5]).SetErrorWriter(pool[6])
+		slog.AddFlags(slog.Ldate)
+		slog.Reset()
+		slog.AddFlags(slog.LnoInterrupt)
+		def.SetLevel(slog.AlwaysLevel).SetColorMode(false)
+		for _, pr := range []struct {
+			f    func(string, ...any)
+			want int
+		}{{slog.Info, 5}, {slog.Error, 6}} {
+			events = nil
+			pr.f("c03 default logger after Reset")
+			var dests []int
+			for _, ev := range events {
+				if ev.Kind == "write" {
+					dests = append(dests, ev.W)
+				}
+			}
+			if fmt.Sprint(dests) != fmt.Sprint([]int{pr.want}) {
+				r.Fail("C03/package-reset-touched-writers", fmt.Sprintf("the default logger was given writers 5 (normal) and 6 (error); after slog.Reset() a record of it was written to %v, expected [%d]", dests, pr.want), c)
+			}
+		}
+		events = nil
+	}
 	var oc []string
 	nt := false
 	seenAdd := false
